@@ -16,11 +16,22 @@ FIELD_SETS = [
     [("s", "char[4]", None), ("i", "int24", None), ("q", "uint64", None)],
     [("e", "E8", None), ("p", "uint8*", None), ("v", "inner", None), ("r", "inner[2]", None)],
     [("l", "uleb128", None), ("m", "uint32", None)],
+    # anonymous members (their fields are folded into the container's field map)
+    [("h", "uint8", None), (None, "anon_struct2", None), ("k", "uint16", None)],
+    [(None, "anon_union3", None), ("k", "uint16", None), ("j", "uint8", None)],
+    [(None, "anon_struct2", None), (None, "anon_union3", None), ("k", "uint8", None), ("j", "uint32", None), ("g", "uint8", None)],
 ]
+ANON = {"anon_struct2": ("struct", [("pa", "uint8"), ("pb", "uint8")]), "anon_union3": ("union", [("ta", "uint8"), ("tb", "uint16"), ("tc", "uint8")])}
 PRE = "struct inner { uint8 ia; uint32 ib; }; enum E8 : uint8 { A = 1 };"
 
 
-def resolve_type(cs, spec):
+def resolve_type(cs, spec, align=False):
+    if spec in ANON:
+        from dissect.cstruct.types.structure import Field
+
+        kind, members = ANON[spec]
+        make = cs._make_struct if kind == "struct" else cs._make_union
+        return make(cs._next_anonymous(), [Field(n, cs.resolve(t)) for n, t in members], align=align, anonymous=True)
     if spec.endswith("*"):
         return cs._make_pointer(cs.resolve(spec[:-1]))
     if "[" in spec:
@@ -35,7 +46,13 @@ def one_shot(fields, compiled, align):
     from dissect.cstruct import cstruct
 
     cs = cstruct()
-    body = " ".join(f"{t.split('[')[0].rstrip('*')} {'*' if t.endswith('*') else ''}{n}{'[' + t.split('[')[1] if '[' in t else ''}{(':' + str(b)) if b else ''};" for n, t, b in fields)
+    def decl(n, t, b):
+        if t in ANON:
+            kind, members = ANON[t]
+            return f"{kind} {{ " + " ".join(f"{mt} {mn};" for mn, mt in members) + " };"
+        return f"{t.split('[')[0].rstrip('*')} {'*' if t.endswith('*') else ''}{n}{'[' + t.split('[')[1] if '[' in t else ''}{(':' + str(b)) if b else ''};"
+
+    body = " ".join(decl(n, t, b) for n, t, b in fields)
     cs.load(PRE + f" struct T {{ {body} }};", compiled=compiled, align=align)
     return cs
 
@@ -95,11 +112,11 @@ def run(tier, seed):
                         for batch in batches:
                             if len(batch) == 1 and rnd.random() < 0.5:
                                 nme, t, bits = batch[0]
-                                T.add_field(nme, resolve_type(cs, t), bits=bits)
+                                T.add_field(nme, resolve_type(cs, t, align), bits=bits)
                             else:
                                 with T.start_update():
                                     for nme, t, bits in batch:
-                                        T.add_field(nme, resolve_type(cs, t), bits=bits)
+                                        T.add_field(nme, resolve_type(cs, t, align), bits=bits)
                         got = observe(T, samples)
                         ok = got == ref
                         obs = None if ok else _first_diff(ref, got)
